@@ -263,6 +263,254 @@ def setIntegralScale (calcIS : Par α → α) (p : Par α) (I : α) : Par α :=
   let p1 : Par α := { p with lenScale := ((1:Nat):α) }
   { p with lenScale := I / calcIS p1 }
 
+/-! ### `tools/special.py`: the plumbing of the exponential-integral families
+
+The scipy primitives (`exp1`, `expn`, `gamma * gammaincc`, `gamma * gammainc`) are parameters of the model
+(`Prims`); what is modelled is everything GSTools wraps around them: the `np.isclose` shortcuts to integer
+orders, the recursion of `inc_gamma` / `inc_gamma_low` to a base in `[0, 1)`, the small-`x` / large-`x`
+branches of `exp_int`, `tplstable_cor` and the `cor` / `correlation` methods built on them. -/
+
+/-- nearest integer of a scalar, as an integer (`np.around`; ties only matter where `np.isclose` fails) -/
+class HasRound (α : Type) where
+  around : α → Int
+
+/-- `np.around` on doubles: to nearest, ties to even -/
+def floatAround (s : Float) : Int :=
+  let r := if Float.abs (s - Float.floor s) == 0.5 then 2.0 * Float.round (s / 2.0) else Float.round s
+  r.toInt64.toInt
+
+instance : HasRound Float := ⟨floatAround⟩
+
+/-- `np.isclose(a, b)` with the numpy defaults: `|a - b| <= atol + rtol * |b|`, `atol = 1e-8`, `rtol = 1e-5` -/
+def iscloseTo (a b : α) : Bool := decide (fabs (a - b) ≤ (1e-8 : α) + (1e-5 : α) * fabs b)
+
+/-- the scipy primitives the helpers bottom out in -/
+structure Prims (α : Type) where
+  /-- `sps.exp1(x)` -/
+  exp1 : α → α
+  /-- `sps.expn(n, x)` -/
+  expn : Int → α → α
+  /-- `sps.gamma(s) * sps.gammaincc(s, x)` -/
+  gammaQ : α → α → α
+  /-- `sps.gamma(s) * sps.gammainc(s, x)` -/
+  gammaP : α → α → α
+
+/-- how `inc_gamma(s, ·)` is evaluated: which primitive, after how many steps of the recurrence -/
+inductive GPlan (α : Type) where
+  | exp1 : GPlan α
+  /-- `x**s * sps.expn(n, x)` -/
+  | powExpn (s : α) (n : Int) : GPlan α
+  | gammaQ (s : α) : GPlan α
+  /-- `(inner(x) - x**s * np.exp(-x)) / s` -/
+  | down (s : α) (inner : GPlan α) : GPlan α
+  | noFuel : GPlan α
+  deriving Inhabited
+
+/-- `inc_gamma(s, x)`: the branch taken depends on `s` only -/
+def incGammaPlan [HasRound α] : Nat → α → GPlan α
+  | 0, _ => .noFuel
+  | fuel + 1, s =>
+    if iscloseTo s ((0:Nat):α) then .exp1
+    else if iscloseTo s ((HasRound.around s : Int) : α) && decide (s < -(0.5:α)) then
+      .powExpn s (1 - HasRound.around s)
+    else if s < ((0:Nat):α) then .down s (incGammaPlan fuel (s + ((1:Nat):α)))
+    else .gammaQ s
+
+def evalG (P : Prims α) : GPlan α → α → Option α
+  | .exp1, x => some (P.exp1 x)
+  | .powExpn s n, x => some (rpow x s * P.expn n x)
+  | .gammaQ s, x => some (P.gammaQ s x)
+  | .down s inner, x => (evalG P inner x).map fun g => (g - rpow x s * exp (-x)) / s
+  | .noFuel, _ => none
+
+/-- `inc_gamma(s, x)` (`none`: more than `fuel` recursion steps, i.e. `s < -fuel`) -/
+def incGamma [HasRound α] (P : Prims α) (fuel : Nat) (s x : α) : Option α := evalG P (incGammaPlan fuel s) x
+
+/-- how `inc_gamma_low(s, ·)` is evaluated -/
+inductive LPlan (α : Type) where
+  /-- `np.full_like(x, np.inf)`: a pole of the lower incomplete gamma function -/
+  | pole : LPlan α
+  | gammaP (s : α) : LPlan α
+  /-- `(inner(x) + x**s * np.exp(-x)) / s` -/
+  | up (s : α) (inner : LPlan α) : LPlan α
+  | noFuel : LPlan α
+  deriving Inhabited
+
+def incGammaLowPlan [HasRound α] : Nat → α → LPlan α
+  | 0, _ => .noFuel
+  | fuel + 1, s =>
+    if iscloseTo s ((HasRound.around s : Int) : α) && decide (s < (0.5:α)) then .pole
+    else if s < ((0:Nat):α) then .up s (incGammaLowPlan fuel (s + ((1:Nat):α)))
+    else .gammaP s
+
+/-- `none`: pole (`inf`) or out of fuel -/
+def evalL (P : Prims α) : LPlan α → α → Option α
+  | .pole, _ => none
+  | .gammaP s, x => some (P.gammaP s x)
+  | .up s inner, x => (evalL P inner x).map fun g => (g + rpow x s * exp (-x)) / s
+  | .noFuel, _ => none
+
+/-- which evaluation `exp_int(s, ·)` uses (depends on `s` only) -/
+inductive EPlan where
+  | exp1 : EPlan
+  /-- `sps.expn(n, x)` with the integer order `n = int(np.around(s))` -/
+  | expn (n : Int) : EPlan
+  /-- the per-`x` branches: limit at `+0`, asymptote, `inc_gamma(1 - s, x) * x**(s - 1)` -/
+  | general : EPlan
+  deriving Repr, DecidableEq, Inhabited
+
+def expIntPlan [HasRound α] (s : α) : EPlan :=
+  if iscloseTo s ((1:Nat):α) then .exp1
+  else if iscloseTo s ((HasRound.around s : Int) : α) && decide (-(0.5:α) < s) then .expn (HasRound.around s)
+  else .general
+
+/-- classes of the argument in the general branch of `exp_int` (in the order the code lets them win) -/
+inductive XClass where
+  | neg | inf | zero | fin
+  deriving Repr, DecidableEq, Inhabited
+
+/-- exponent of `x_compare = x ** min((10, max(((1 - s), 1))))` -/
+def xCompareExp (s : α) : α := fmin ((10:Nat):α) (fmax (((1:Nat):α) - s) ((1:Nat):α))
+
+def expIntClass (s x : α) : XClass :=
+  let ax := fabs x
+  if x < ((0:Nat):α) then .neg
+  else if fmax ((30:Nat):α) (-s / ((2:Nat):α)) < ax then .inf
+  else if rpow ax (xCompareExp s) ≤ (1e-20 : α) then .zero
+  else .fin
+
+/-- value of `exp_int(s, x)`; errors: `"nan"` (`x < 0`), `"inf"` (limit at `+0` for `s <= 1`), `"fuel"` -/
+def expInt [HasRound α] (P : Prims α) (fuel : Nat) (s x : α) : Except String α :=
+  match expIntPlan s with
+  | .exp1 => .ok (P.exp1 x)
+  | .expn n => .ok (P.expn n x)
+  | .general =>
+    let ax := fabs x
+    match expIntClass s x with
+    | .neg => .error "nan"
+    | .inf => .ok (exp (-ax) * (((1:Nat):α) / ax - s * rpow ax (-((2:Nat):α))))
+    | .zero => if ((1:Nat):α) < s then .ok (((1:Nat):α) / (s - ((1:Nat):α))) else .error "inf"
+    | .fin =>
+      match incGamma P fuel (((1:Nat):α) - s) ax with
+      | some g => .ok (g * rpow ax (s - ((1:Nat):α)))
+      | none => .error "fuel"
+
+/-- What the functions built on `exp_int` do with its values: they are affine in them.  The same generic
+    text is evaluated (`evalAlg`, `totalAlg`) and, in the driver, expanded into the list of `exp_int` calls it
+    makes with their weights (`affAlg`). -/
+structure EAlg (α R : Type) where
+  /-- `exp_int(s, x)` -/
+  E : α → α → R
+  const : α → R
+  smul : α → R → R
+  sub : R → R → R
+  sdiv : R → α → R
+
+/-- `tplstable_cor(r, len_scale, hurst, alpha)`: `r = |r / len_scale|`, `1` where `np.isclose(r, 0)`, else
+    `(2 * hurst / alpha) * exp_int(1 + 2 * hurst / alpha, r ** alpha)` -/
+def tplstableCorG {R : Type} (A : EAlg α R) (r len hurst alpha : α) : R :=
+  let h := fabs (r / len)
+  if isclose0 h then A.const ((1:Nat):α)
+  else A.smul (((2:Nat):α) * hurst / alpha) (A.E (((1:Nat):α) + ((2:Nat):α) * hurst / alpha) (rpow h alpha))
+
+/-- `TPLStable.correlation` (`TPLGaussian`: `alpha = 2`, `TPLExponential`: `alpha = 1`); `lenLow`, `lenScale`,
+    `rescale` as stored on the model -/
+def tplCorrelationG {R : Type} (A : EAlg α R) (lenScale lenLow rescale hurst alpha r : α) : R :=
+  let lowR := lenLow / rescale
+  let upR := (lenLow + lenScale) / rescale
+  if iscloseTo lowR ((0:Nat):α) then tplstableCorG A r (lenScale / rescale) hurst alpha
+  else
+    let wu := rpow upR (((2:Nat):α) * hurst)
+    let wl := rpow lowR (((2:Nat):α) * hurst)
+    A.sdiv (A.sub (A.smul wu (tplstableCorG A r upR hurst alpha)) (A.smul wl (tplstableCorG A r lowR hurst alpha)))
+      (wu - wl)
+
+/-- `Integral.cor(h) = 0.5 * nu * exp_int(1.0 + 0.5 * nu, h**2)` -/
+def integralCorG {R : Type} (A : EAlg α R) (nu h : α) : R :=
+  A.smul ((0.5:α) * nu) (A.E (((1:Nat):α) + (0.5:α) * nu) (npow h 2))
+
+/-- evaluation with the modelled `exp_int` (`none`: `nan` / `inf` / out of fuel) -/
+def evalAlg [HasRound α] (P : Prims α) (fuel : Nat) : EAlg α (Option α) where
+  E s x := match expInt P fuel s x with | .ok v => some v | .error _ => none
+  const c := some c
+  smul a r := r.map fun v => a * v
+  sub a b := a.bind fun x => b.map fun y => x - y
+  sdiv r a := r.map fun v => v / a
+
+/-- evaluation with any total function in the place of `exp_int` -/
+def totalAlg (E : α → α → α) : EAlg α α where
+  E := E
+  const c := c
+  smul a r := a * r
+  sub a b := a - b
+  sdiv r a := r / a
+
+/-- `const + Σ coef * exp_int(s, x)` -/
+structure Aff (α : Type) where
+  const : α
+  terms : List (α × α × α)      -- (coef, s, x)
+
+def affAlg : EAlg α (Aff α) where
+  E s x := ⟨((0:Nat):α), [(((1:Nat):α), s, x)]⟩
+  const c := ⟨c, []⟩
+  smul a r := ⟨a * r.const, r.terms.map fun t => (a * t.1, t.2)⟩
+  sub a b := ⟨a.const - b.const, a.terms ++ b.terms.map fun t => (-t.1, t.2)⟩
+  sdiv r a := ⟨r.const / a, r.terms.map fun t => (t.1 / a, t.2)⟩
+
+/-- value of an affine form once `exp_int` is a total function -/
+def Aff.eval (E : α → α → α) (f : Aff α) : α :=
+  f.terms.foldl (fun acc t => acc + t.1 * E t.2.1 t.2.2) f.const
+
+def tplstableCor [HasRound α] (P : Prims α) (fuel : Nat) (r len hurst alpha : α) : Option α :=
+  tplstableCorG (evalAlg P fuel) r len hurst alpha
+
+def tplCorrelation [HasRound α] (P : Prims α) (fuel : Nat) (lenScale lenLow rescale hurst alpha r : α) :
+    Option α :=
+  tplCorrelationG (evalAlg P fuel) lenScale lenLow rescale hurst alpha r
+
+def integralCor [HasRound α] (P : Prims α) (fuel : Nat) (nu h : α) : Option α :=
+  integralCorG (evalAlg P fuel) nu h
+
+/-! ### derived scales after in-place parameter changes
+
+`CovModel.integral_scale` is recomputed from the *current* parameters on every read
+(`calc_integral_scale`); the setters only store.  The state below carries what the integral scale depends
+on; `ci dim shape` is `∫₀^∞ cor` of the class for the current dimension and optional (shape) argument. -/
+
+structure MState (α : Type) where
+  par : Par α
+  dim : Nat
+  shape : α
+  anis : List α
+
+inductive MOp (α : Type) where
+  | setVar (v : α) | setLenScale (v : α) | setNugget (v : α) | setRescale (v : α)
+  | setShape (v : α)
+  /-- `model.dim = d`; the re-padded anisotropy ratios are an input (their rule belongs to C14) -/
+  | setDim (d : Nat) (anis : List α)
+  | setAnis (anis : List α)
+  | setIntegralScale (I : α)
+
+/-- `calc_integral_scale()` of the current state -/
+def reportedIS (ci : Nat → α → α) (st : MState α) : α := integralScale st.par (ci st.dim st.shape)
+
+/-- `integral_scale_vec`: `[I, I * anis[0], I * anis[1]]` -/
+def reportedISVec (ci : Nat → α → α) (st : MState α) : List α :=
+  reportedIS ci st :: st.anis.map fun a => reportedIS ci st * a
+
+def mstep (ci : Nat → α → α) (st : MState α) : MOp α → MState α
+  | .setVar v => { st with par := { st.par with var := v } }
+  | .setLenScale v => { st with par := { st.par with lenScale := v } }
+  | .setNugget v => { st with par := { st.par with nugget := v } }
+  | .setRescale v => { st with par := { st.par with rescale := v } }
+  | .setShape v => { st with shape := v }
+  | .setDim d anis => { st with dim := d, anis := anis }
+  | .setAnis anis => { st with anis := anis }
+  | .setIntegralScale I =>
+    { st with par := setIntegralScale (fun q => integralScale q (ci st.dim st.shape)) st.par I }
+
+def mrun (ci : Nat → α → α) (st : MState α) (ops : List (MOp α)) : MState α := ops.foldl (mstep ci) st
+
 /-! ### driver -/
 
 /-- kernels addressable from the harness: name, dimension, one float optional argument, one natural -/
@@ -349,6 +597,48 @@ def optFloat (j : Json) (k : String) (d : Float) : Float :=
 def optFloats (j : Json) (k : String) : List Float :=
   match getFloats j k with | .ok v => v.toList | .error _ => []
 
+def gplanJson : GPlan Float → Json
+  | .exp1 => Json.arr #[Json.str "exp1"]
+  | .powExpn s n => Json.arr #[Json.str "powexpn", fbits s, Json.num (JsonNumber.fromInt n)]
+  | .gammaQ s => Json.arr #[Json.str "gammaq", fbits s]
+  | .down s inner => Json.arr #[Json.str "down", fbits s, gplanJson inner]
+  | .noFuel => Json.arr #[Json.str "nofuel"]
+
+def lplanJson : LPlan Float → Json
+  | .pole => Json.arr #[Json.str "pole"]
+  | .gammaP s => Json.arr #[Json.str "gammap", fbits s]
+  | .up s inner => Json.arr #[Json.str "up", fbits s, lplanJson inner]
+  | .noFuel => Json.arr #[Json.str "nofuel"]
+
+/-- recursion budget of the driver (`exp_int` documents `s > -100`) -/
+def driverFuel : Nat := 400
+
+/-- primitives that are never called on the branches the driver evaluates itself -/
+def nanPrims : Prims Float :=
+  { exp1 := fun _ => 0.0 / 0.0, expn := fun _ _ => 0.0 / 0.0, gammaQ := fun _ _ => 0.0 / 0.0, gammaP := fun _ _ => 0.0 / 0.0 }
+
+def affJson (f : Aff Float) : Json :=
+  Json.mkObj [("c", fbits f.const), ("t", Json.arr (f.terms.map fun t => fl [t.1, t.2.1, t.2.2]).toArray)]
+
+/-- `∫₀^∞ cor` as a function of the dimension and the optional argument, for the history model -/
+def corIntegralShape (name : String) (dim : Nat) (a : Float) : Option Float :=
+  match name with
+  | "Matern" => if a == 0.5 then some matern12CorIntegral else if a == 1.5 then some matern32CorIntegral
+                else if a == 2.5 then some matern52CorIntegral else none
+  | _ => corIntegralByName name dim a
+
+def mopOfJson (j : Json) : Except String (MOp Float) := do
+  match ← getStr j "k" with
+  | "var" => return .setVar (← getFloat j "v")
+  | "len_scale" => return .setLenScale (← getFloat j "v")
+  | "nugget" => return .setNugget (← getFloat j "v")
+  | "rescale" => return .setRescale (← getFloat j "v")
+  | "shape" => return .setShape (← getFloat j "v")
+  | "dim" => return .setDim (← getNat j "d") (optFloats j "anis")
+  | "anis" => return .setAnis (optFloats j "anis")
+  | "integral_scale" => return .setIntegralScale (← getFloat j "v")
+  | k => throw s!"unknown history op {k}"
+
 /-- line-protocol operations of this model; `none` = not one of mine -/
 def ops (op : String) (j : Json) : Option (Except String Json) :=
   match op with
@@ -412,6 +702,62 @@ def ops (op : String) (j : Json) : Option (Except String Json) :=
       | "Exponential" => return fl [exponentialCalcIS p]
       | "Integral" => return fl [integralCalcIS a p]
       | _ => throw s!"no calc_integral_scale model for {name}")
+  /- tools/special.py: how inc_gamma / inc_gamma_low / exp_int evaluate (plans; the scipy leaves are evaluated by the harness) -/
+  | "special_inc_gamma" => some (do
+      return gplanJson (incGammaPlan driverFuel (← getFloat j "s")))
+  | "special_inc_gamma_low" => some (do
+      return lplanJson (incGammaLowPlan driverFuel (← getFloat j "s")))
+  | "special_exp_int" => some (do
+      let s ← getFloat j "s"
+      let xs ← getFloats j "x"
+      let plan := expIntPlan s
+      let planJ := match plan with
+        | .exp1 => Json.arr #[Json.str "exp1"]
+        | .expn n => Json.arr #[Json.str "expn", Json.num (JsonNumber.fromInt n)]
+        | .general => Json.arr #[Json.str "general", gplanJson (incGammaPlan driverFuel (1.0 - s))]
+      let per := xs.toList.map fun x =>
+        match plan with
+        | .general =>
+          (match expIntClass s x with
+           | .neg => Json.arr #[Json.str "neg"]
+           | .fin => Json.arr #[Json.str "fin", fbits (rpow (Float.abs x) (s - 1.0))]
+           | c =>
+             let tag := if c == .inf then "inf" else "zero"
+             match expInt nanPrims driverFuel s x with
+             | .ok v => Json.arr #[Json.str tag, fbits v]
+             | .error e => Json.arr #[Json.str tag, Json.str e])
+        | _ => Json.arr #[Json.str "prim"]
+      return Json.mkObj [("plan", planJ), ("x", Json.arr per.toArray)])
+  /- the correlation functions built on exp_int, expanded into their exp_int calls: const + Σ coef * exp_int(s, x) -/
+  | "special_model" => some (do
+      let fn ← getStr j "fn"
+      let rs ← getFloats j "r"
+      match fn with
+      | "tplstable" =>
+        let (len, hurst, alpha) := (← getFloat j "len", ← getFloat j "hurst", ← getFloat j "alpha")
+        return Json.arr (rs.map fun r => affJson (tplstableCorG affAlg r len hurst alpha))
+      | "tpl" =>
+        let (ls, ll, rs', hurst, alpha) := (← getFloat j "len_scale", ← getFloat j "len_low", ← getFloat j "rescale",
+                                            ← getFloat j "hurst", ← getFloat j "alpha")
+        return Json.arr (rs.map fun r => affJson (tplCorrelationG affAlg ls ll rs' hurst alpha r))
+      | "integral" =>
+        let nu ← getFloat j "nu"
+        return Json.arr (rs.map fun h => affJson (integralCorG affAlg nu h))
+      | _ => throw s!"unknown special model {fn}")
+  /- read / change / read histories: reported integral scale, len_scale, integral_scale_vec after every step -/
+  | "covfn_history" => some (do
+      let name ← getStr j "kernel"
+      let p ← getPar j
+      let st0 : MState Float := { par := p, dim := ← getNat j "dim", shape := optFloat j "shape" 1.0, anis := optFloats j "anis" }
+      let ci : Nat → Float → Float := fun d a => (corIntegralShape name d a).getD (0.0 / 0.0)
+      let opsJ ← match j.getObjVal? "ops" with
+        | .ok (Json.arr a) => pure a.toList
+        | _ => throw "ops"
+      let ops ← opsJ.mapM mopOfJson
+      let (_, out) := ops.foldl (fun (acc : MState Float × List (List Float)) op =>
+        let st := mstep ci acc.1 op
+        (st, acc.2 ++ [[st.par.lenScale] ++ reportedISVec ci st])) (st0, [[st0.par.lenScale] ++ reportedISVec ci st0])
+      return fl2 out)
   | "covfn_default_rescale" => some (do
       let name ← getStr j "kernel"
       return fl [if name == "Gaussian" then gaussianRescale else 1.0])
